@@ -54,15 +54,15 @@ Fixpoint dedupn (l : list nat) : list nat :=
 Definition topob (g : dag) : bool :=
   forallb (fun i => forallb (fun q => q <? i) (parents g i)) (seq 0 (length g)).
 
-Fixpoint ancl (g : dag) (fuel c : nat) : list nat :=
-  c :: match fuel with
-       | 0 => []
-       | S f => flat_map (ancl g f) (parents g c)
-       end.
-
-(* table of ancestor-or-self sets, computed once per graph *)
-Definition anc_tab (g : dag) : list (list nat) :=
-  map (fun c => dedupn (ancl g c c)) (seq 0 (length g)).
+(* table of ancestor-or-self sets, built bottom-up along the topological numbering:
+   entry c = c and everything in the entries of c's parents *)
+Fixpoint anc_tab_from (rest : dag) (i : nat) (tab : list (list nat)) : list (list nat) :=
+  match rest with
+  | [] => tab
+  | ps :: r =>
+      anc_tab_from r (S i) (tab ++ [dedupn (i :: flat_map (fun q => nth q tab []) ps)])
+  end.
+Definition anc_tab (g : dag) : list (list nat) := anc_tab_from g 0 [].
 Definition anc_of (tab : list (list nat)) (c : nat) : list nat := nth c tab [].
 Definition ancb (tab : list (list nat)) (a c : nat) : bool := memn a (anc_of tab c).
 
